@@ -16,7 +16,7 @@ import (
 
 func init() {
 	register(&Rule{
-		ID: "QS", Props: []string{"C02"}, Min: 3,
+		ID: "QS", Props: []string{"C02", "C04"}, Min: 3,
 		Doc: `quality offset provenance: the value added to a quality in BioSequence.QualitiesString originates (def-use through locals, parameters and all static call
 sites, conversions allowed) from obioptions.OutputQualityShift() and the quality is clamped to the constant 93 before the addition; the value subtracted in
 _storeSequenceQuality originates from obioptions.InputQualityShift() at every call chain; and the reader checks that quality and sequence lengths agree with a fatal branch.
